@@ -92,7 +92,13 @@ pub fn configs(thorough: bool) -> Vec<Config> {
     d1.extend([ns("z.", 60, "n2.o."), a("a.z.", 60, 1), a("a.z.", 60, 2), txt("a.z.", 60, "t"), cname("b.z.", 60, "a.z."), a("a.a.z.", 60, 1)]);
     let mut d2 = base(1);
     d2.extend([ns("a.z.", 60, "n1.o."), a("a.a.z.", 60, 1), a("b.z.", 60, 1)]);
-    for (name, zone) in [("D0:minimal/signed", base(1)), ("D1:rich/signed", d1), ("D2:delegation/signed", d2)] {
+    // the same rich zone and a delegation + empty non-terminal zone signed with NSEC3 (salt abcd, 2 iterations)
+    let nsec3param = Rr::new("z.", 51, ru::CLASS_IN, 0, vec![1, 0, 0, 2, 2, 0xab, 0xcd]);
+    let mut d3 = d1.clone();
+    d3.push(nsec3param.clone());
+    let mut d4 = d2.clone();
+    d4.push(nsec3param);
+    for (name, zone) in [("D0:minimal/signed", base(1)), ("D1:rich/signed", d1), ("D2:delegation/signed", d2), ("D3:rich/signed-nsec3", d3), ("D4:delegation/signed-nsec3", d4)] {
         v.push(Config { name: name.into(), zone, serial0: 1, serial_focus: false, dnssec: true });
     }
     let _ = thorough;
@@ -151,8 +157,18 @@ pub fn prereq_atoms() -> Vec<AtomSpec> {
     // a foreign class with the metavalue forms
     v.push(AtomSpec::plain(empty("a.z.", ru::T_ANY, ru::CLASS_CH, 0)));
     v.push(AtomSpec::plain(empty("a.z.", ru::T_A, ru::CLASS_CH, 0)));
+    // a type whose RDATA is opaque octets (NULL, 10): the metavalue forms with empty RDATA are
+    // well-formed, with RDATA they are FORMERR like for every other type (audit: the handler's
+    // "RDATA is empty" test has an arm of its own for this type)
+    v.push(AtomSpec::plain(empty("a.z.", T_NULL, ru::CLASS_ANY, 0)));
+    v.push(AtomSpec::plain(empty("a.z.", T_NULL, ru::CLASS_NONE, 0)));
+    v.push(AtomSpec::plain(Rr::new("a.z.", T_NULL, ru::CLASS_ANY, 0, vec![0xaa, 0xbb])));
+    v.push(AtomSpec::plain(Rr::new("a.z.", T_NULL, ru::CLASS_NONE, 0, vec![0xaa, 0xbb])));
+    v.push(AtomSpec::plain(Rr::new("a.z.", T_NULL, ru::CLASS_IN, 0, vec![0xaa, 0xbb]))); // value dependent
     v
 }
+
+pub const T_NULL: u16 = 10;
 
 pub fn soa_update_atoms() -> Vec<AtomSpec> {
     let mut v = vec![];
@@ -218,6 +234,20 @@ pub fn update_atoms() -> Vec<AtomSpec> {
     // a foreign class with the metavalue forms
     v.push(AtomSpec::plain(empty("a.z.", ru::T_A, ru::CLASS_CH, 0)));
     v.push(AtomSpec::plain(empty("a.z.", ru::T_ANY, ru::CLASS_CH, 0)));
+    // every query meta type in every class arm of the prescan (3.4.1.2) that has none above
+    v.push(AtomSpec::plain(empty("a.z.", ru::T_IXFR, ru::CLASS_IN, 60)));
+    v.push(AtomSpec::plain(empty("a.z.", ru::T_MAILA, ru::CLASS_IN, 60)));
+    v.push(AtomSpec::plain(empty("a.z.", ru::T_IXFR, ru::CLASS_ANY, 0)));
+    v.push(AtomSpec::plain(empty("a.z.", ru::T_MAILA, ru::CLASS_ANY, 0)));
+    v.push(AtomSpec::plain(empty("a.z.", ru::T_AXFR, ru::CLASS_NONE, 0)));
+    v.push(AtomSpec::plain(empty("a.z.", ru::T_IXFR, ru::CLASS_NONE, 0)));
+    v.push(AtomSpec::plain(empty("a.z.", ru::T_MAILB, ru::CLASS_NONE, 0)));
+    v.push(AtomSpec::plain(empty("a.z.", ru::T_MAILA, ru::CLASS_NONE, 0)));
+    // opaque-RDATA type NULL (10): add, delete RR, delete RRset, and "delete RRset" WITH RDATA (FORMERR)
+    v.push(AtomSpec::plain(Rr::new("a.z.", T_NULL, ru::CLASS_IN, 60, vec![0xaa, 0xbb])));
+    v.push(AtomSpec::plain(Rr::new("a.z.", T_NULL, ru::CLASS_NONE, 0, vec![0xaa, 0xbb])));
+    v.push(AtomSpec::plain(empty("a.z.", T_NULL, ru::CLASS_ANY, 0)));
+    v.push(AtomSpec::plain(Rr::new("a.z.", T_NULL, ru::CLASS_ANY, 0, vec![0xaa, 0xbb])));
     v
 }
 
